@@ -39,6 +39,11 @@ MARKS = [
     ("SupportsNoUv",  r"\.\s*supports_no_uv\s*\(\s*\)"),
     ("OnMcCfg",       r"\bon_make_credential_support\b"),
     ("EvalByCred",    r"\beval_by_credential\b"),
+    # counters: the one place a counter is advanced, how it starts, and where the authenticator data (which reports it) is built
+    ("SatAdd1",       r"\.\s*saturating_add\s*\(\s*1\s*\)"),
+    ("Arith",         r"\.\s*(?:wrapping|checked|overflowing|saturating)_(?:add|sub|mul)\s*\(|\+=|-=|[\w\)]\s*\+\s*[\w\(]|[\w\)]\s+-\s+[\w\(]"),
+    ("CounterStart0", r"\.\s*then_some\s*\(\s*0\s*\)"),
+    ("NewAuthData",   r"AuthenticatorData::new\s*\("),
     ("Err",           r"(?:Err\s*\(|ok_or\s*\(|map_err\s*\(\s*\|_\|\s*)\s*(?:Ctap2Error|U2FError)::(\w+)"),
 ]
 MASTER = re.compile("|".join("(?P<m%d>%s)" % (i, pat) for i, (_, pat) in enumerate(MARKS)))
